@@ -38,9 +38,60 @@ def outputs_of(result):
     return {k: v for k, v in attrs_values(result.outputs).items()}
 
 
+WORKER_VARIANTS = {      # non-default parameter sets per plugin (index = Shipping_Gen variant)
+    "debug": [{}],
+    "cf": [{}, {"n_procs": 1}, {"n_procs": 3}],
+    "slurm": [{}, {"poll_delay": 3, "sbatch_args": "-p debug"}, {"poll_delay": 2, "sbatch_args": "--mem=1G -t 5"}],
+    "sge": [{}, {"qsub_args": "-q all.q", "max_threads": 4, "write_output_files": False},
+            {"poll_for_result_file": False, "default_threads_per_task": 2, "max_job_array_length": 7}],
+}
+
+
+def worker_kwargs(cfg):
+    if "variant" in cfg:
+        return dict(WORKER_VARIANTS[cfg["worker"]][cfg["variant"]])
+    return {"n_procs": cfg.get("n_procs", 2)} if cfg["worker"] == "cf" else {}
+
+
+def make_submitter(cfg, root, ro):
+    """the three ways a Submitter accepts its worker"""
+    from pydra.engine.submitter import Submitter
+    from pydra.workers.base import Worker
+    from pydra.utils.messenger import AuditFlag
+    wkw = worker_kwargs(cfg)
+    kw = {}
+    if cfg.get("max_concurrent") or cfg.get("maxc"):
+        kw["max_concurrent"] = cfg.get("max_concurrent") or cfg.get("maxc")
+    how = cfg.get("how", "name")
+    if how == "name":
+        worker, kw = cfg["worker"], {**kw, **wkw}
+    elif how == "class":
+        worker, kw = Worker.plugin(cfg["worker"]), {**kw, **wkw}
+    else:
+        worker = Worker.plugin(cfg["worker"])(**wkw)
+    return Submitter(cache_root=root, worker=worker, readonly_caches=ro or None,
+                     audit_flags=getattr(AuditFlag, cfg.get("audit", "NONE")), **kw)
+
+
+def worker_projection(w):
+    """every scalar parameter of the worker (attrs fields) + the size of a process pool"""
+    import attrs
+    d = {}
+    for a in attrs.fields(type(w)):
+        if a.name == "loop":
+            continue
+        v = getattr(w, a.name, "<missing>")
+        if isinstance(v, (str, int, float, bool)) or v is None:
+            d[a.name] = v
+        elif hasattr(v, "_max_workers"):
+            d[a.name] = {"max_workers": v._max_workers}
+    return d
+
+
 def project(job):
     sub = job.submitter
     return json.dumps({
+        "worker_params": worker_projection(sub.worker),
         "checksum": job.checksum,
         "hashes": {k: str(v) for k, v in sorted(job.task._compute_hashes()[1].items())},
         "cache_root": str(job.cache_root),
@@ -101,9 +152,26 @@ def run(ctx):
     tasks = [{"kind": "wf", "wf": w} for w in wfs]
     tasks += [{"kind": "py", "x": k} for k in range(1, (40 if ctx.thorough else 4))]
     tasks += [{"kind": "sh", "args": [f"a{k}", "bcd"[: 1 + k % 3]]} for k in range(1, (40 if ctx.thorough else 4))]
-    cfgs = [{"worker": "debug"}, {"worker": "cf", "n_procs": 2}, {"worker": "debug", "n_ro": 2, "audit": "PROV"},
-            {"worker": "cf", "n_procs": 4, "max_concurrent": 2, "n_ro": 1}]
-    cases = [{"task": t, "cfg": cfgs[(i + j) % len(cfgs)]} for i, t in enumerate(tasks) for j in range(2 if ctx.thorough else 1)]
+    gen = ctx.tlc("Shipping_Gen", cfg="Shipping_Gen.cfg", workers=1)
+    allcfgs = sorted(({**c, "n_ro": c["nro"]} for c in gen.printed()), key=lambda c: json.dumps(c, sort_keys=True))
+    if len(allcfgs) != 240:
+        raise core.MachineryError(f"Shipping_Gen produced {len(allcfgs)} configurations")
+    if ctx.thorough:
+        cfgs = allcfgs
+    else:       # quick: every (worker, how, variant) once, the other dimensions drawn per configuration
+        by = {}
+        for c in allcfgs:
+            by.setdefault((c["worker"], c["how"], c["variant"]), []).append(c)
+        cfgs = [ctx.rng.choice(v) for _, v in sorted(by.items())]
+    ctx.rng.shuffle(cfgs)
+    run_cfgs = [c for c in cfgs if c["runnable"]]
+    ship_cfgs = [c for c in cfgs if not c["runnable"]]
+    cases = [{"task": t, "cfg": run_cfgs[(i + j) % len(run_cfgs)]} for i, t in enumerate(tasks) for j in range(2 if ctx.thorough else 1)]
+    # every runnable configuration at least once; batch-system workers are shipped and projected only
+    used = {json.dumps(c["cfg"], sort_keys=True) for c in cases}
+    cases += [{"task": tasks[k % len(tasks)], "cfg": c} for k, c in enumerate(run_cfgs) if json.dumps(c, sort_keys=True) not in used]
+    cases += [{"task": tasks[-1 - k % 6], "cfg": c} for k, c in enumerate(ship_cfgs)]
+    ctx.extra["configurations"] = {"all": len(allcfgs), "used": len({json.dumps(c["cfg"], sort_keys=True) for c in cases})}
     batches = [cases[i:i + 6] for i in range(0, len(cases), 6)]
     res = [r for b in core.tmap(run_batch, batches, threads=6) for r in b]
     lines = []
@@ -126,7 +194,10 @@ def run(ctx):
             ctx.violation(f"shipping trace rejected at {v['verdict']}: {ev['a']} ({ev['where']})", case={"case": c},
                           expected="accepted", observed={"verdict": v, "events": l["ev"]})
     ctx.sample({"case": cases[0]["cfg"], "events": [e["a"] + "@" + e["where"] for e in lines[0]["ev"]] if lines else []})
-    ctx.rule = "tasks (C03 workflow generator records outside the recorded finding classes, python tasks, shell tasks) x 4 worker/submitter configurations; one cloudpickle round trip through a fresh interpreter each"
+    ctx.rule = ("tasks (C03 workflow generator records outside the recorded finding classes, python tasks, shell tasks) x "
+                "worker/submitter configurations enumerated by TLC (Shipping_Gen: plugin x way of passing the worker x parameter "
+                "set x read-only caches x audit x max_concurrent; quick: every plugin/way/parameter-set once); one cloudpickle "
+                "round trip through a fresh interpreter each; batch-system workers are shipped and projected, not run")
 
 
 def replay(ctx, rec):
